@@ -118,12 +118,37 @@ func sanitizationContextForAttributeValue(c context) (sanitizationContext, error
 // value that c is in are sanitized: the sanitization context and, for URLs, what is known
 // about the part of the value that precedes the action. It distinguishes the copies of a
 // template that is called from inside attribute values.
-func attributeValueClass(c context) string {
+func attributeValueClass(c context) (ret string) {
 	sc, err := sanitizationContextForAttributeValue(c)
 	if err != nil || c.element.continued || c.attr.continued || c.enclosing == "*" {
 		return "Invalid"
 	}
 	s := sc.String()
+	defer func() {
+		// What is known about the value so far is part of the context that the called
+		// template starts in, and the context in which it ends is derived from it.
+		// (The classes of URL values already tell these cases apart as far as it matters.)
+		if !sc.isURLorTrustedResourceURL() {
+			if c.attr.dynamic {
+				ret += "+Dynamic"
+			}
+			if c.attr.dynamicStart {
+				ret += "+DynamicStart"
+			}
+			if c.attr.ambiguousValue {
+				ret += "+Ambiguous"
+			}
+		}
+		// The static text of some values decides about the sanitization of other attributes
+		// of the element (rel of link, type of script).
+		if name := c.attr.name[strings.LastIndexByte(c.attr.name, '/')+1:]; (name == "rel" || name == "type") && ret != "Invalid" {
+			if len(c.attr.value) > maxUnfinishedURLPrefixLen {
+				ret += overlongUnfinishedURLPrefix
+			} else {
+				ret += "+Value(" + c.attr.value + ")"
+			}
+		}
+	}()
 	switch {
 	case sc == sanitizationContextStyle:
 		if c.attr.value != "" || c.attr.dynamic {
@@ -139,6 +164,10 @@ func attributeValueClass(c context) string {
 		// Also when the value of the representative branch is empty, as in
 		// `<a href="{{if .C}}{{else}}java{{end}}{{template "t" .}}">`.
 		s += "AmbiguousPrefix"
+		if c.attr.dynamicStart {
+			// Static text after the call could still complete a scheme.
+			s += "AfterAction"
+		}
 	case c.attr.value == "" && c.attr.dynamic:
 		s += "AfterAction"
 	case c.attr.value == "":
@@ -213,10 +242,10 @@ func validateTemplateCallContext(c context) error {
 		return nil
 	}
 	class := attributeValueClass(c)
-	if strings.HasSuffix(strings.TrimSuffix(class, "AfterAction"), overlongUnfinishedURLPrefix) {
+	if strings.Contains(class, overlongUnfinishedURLPrefix) {
 		return fmt.Errorf("the %q attribute value of this %q element starts with more than %d bytes that do not yet make up a valid URL prefix", c.attr.name, c.element.name, maxUnfinishedURLPrefixLen)
 	}
-	if strings.HasSuffix(class, overlongUnfinishedCharRef) {
+	if strings.Contains(class, overlongUnfinishedCharRef) {
 		return fmt.Errorf("the %q attribute value of this %q element ends with more than %d bytes of an incomplete character reference", c.attr.name, c.element.name, maxUnfinishedCharRefLen)
 	}
 	return nil
